@@ -15,7 +15,6 @@ import (
 	"bytes"
 	"fmt"
 	"io"
-
 )
 
 type streamer interface {
